@@ -59,6 +59,12 @@ static Plan gen_c18_multi(uint64_t seed, int tier)
     }
     p.threads[0].push_back(Op{OP_BT_FLUSH, 0});
     p.threads[0].push_back(Op{OP_FLUSH, 0, 100});
+    if (c + 1 < cycles && r.chance(1, 3))
+    {
+      // re-initialise (ring empty, nothing in flight) with another capacity
+      cap = r.range(1, 8);
+      p.threads[0].push_back(Op{OP_BT_INIT, 0, cap, 10});
+    }
   }
   return p;
 }
@@ -74,18 +80,46 @@ static Verdict judge_c18_multi(Plan const& p, History const& h, RunInfoLite cons
     return v;
   }
   Model m = Model::build(p, h);
-  size_t const cap = static_cast<size_t>(p.get("bt_capacity", 1));
-  // cycles: the writer threads spawned between two BT_FLUSH ops of main
-  std::vector<std::vector<int>> cycle_threads(1);
-  for (auto const& op : p.threads[0])
+  if (p.threads.empty() || p.threads[0].empty() || p.threads[0][0].k != OP_BT_INIT)
   {
-    if (op.k == OP_SPAWN)
+    return v; // (a minimisation candidate without the initialisation: nothing is demanded)
+  }
+  size_t const cap = static_cast<size_t>(p.threads[0][0].v[1]);
+  // cycles: the writer threads spawned between two BT_FLUSH ops of main
+  // The demands below are exact only for the shape the generator produces (every writer joined before the flush, the flush
+  // completed by flush_log before the next writers start, re-initialisation only in between): a minimisation candidate that
+  // lost one of those ops is not judged.
+  std::vector<std::vector<int>> cycle_threads;
+  std::vector<size_t> cycle_cap;
+  {
+    auto const& ops = p.threads[0];
+    size_t i = 1;
+    size_t cur_cap = cap;
+    while (i < ops.size())
     {
-      cycle_threads.back().push_back(static_cast<int>(op.v[0]));
-    }
-    else if (op.k == OP_BT_FLUSH)
-    {
-      cycle_threads.emplace_back();
+      if (ops[i].k == OP_BT_INIT)
+      {
+        cur_cap = static_cast<size_t>(ops[i].v[1]);
+        ++i;
+        continue;
+      }
+      std::vector<int> sp, jn;
+      while (i < ops.size() && ops[i].k == OP_SPAWN)
+      {
+        sp.push_back(static_cast<int>(ops[i++].v[0]));
+      }
+      while (i < ops.size() && ops[i].k == OP_JOIN)
+      {
+        jn.push_back(static_cast<int>(ops[i++].v[0]));
+      }
+      bool closed = i + 1 < ops.size() && ops[i].k == OP_BT_FLUSH && ops[i + 1].k == OP_FLUSH;
+      if (sp.empty() || sp != jn || !closed)
+      {
+        return v;
+      }
+      i += 2;
+      cycle_threads.push_back(sp);
+      cycle_cap.push_back(cur_cap);
     }
   }
   uint64_t cycles_checked = 0, replayed = 0;
@@ -120,8 +154,10 @@ static Verdict judge_c18_multi(Plan const& p, History const& h, RunInfoLite cons
                          {{"multi_writer", "1"}});
       }
     }
-    for (auto const& threads : cycle_threads)
+    for (size_t ci = 0; ci < cycle_threads.size(); ++ci)
     {
+      auto const& threads = cycle_threads[ci];
+      size_t const cap = cycle_cap[ci];
       if (threads.empty())
       {
         continue;
